@@ -6,8 +6,11 @@ cd /repo || exit 2
 if [ -n "$(git status --porcelain)" ]; then echo "repo not clean"; exit 2; fi
 git apply "$D/patch.diff" || { echo "patch does not apply"; exit 2; }
 mkdir -p /verif/work/seedruns
+# evidence written while a seeded change is applied is not evidence about /repo: keep the committed file
+cp /verif/evidence/$P.json /verif/work/seedruns/.evidence-$P.bak 2>/dev/null
 /verif/bin/check $P $T > /verif/work/seedruns/$1-$P-$T.log 2>&1; rc=$?
 git -C /repo checkout -- .
+cp /verif/work/seedruns/.evidence-$P.bak /verif/evidence/$P.json 2>/dev/null
 viol=$(grep -c '^VIOLATION' /verif/work/seedruns/$1-$P-$T.log)
 echo "$1 $P $T exit=$rc violation_lines=$viol $(grep -m1 -o 'signature=[^ ]*\|^--- violation.*' /verif/work/seedruns/$1-$P-$T.log | head -1)"
 # replay files produced against a seeded tree are not evidence about /repo: remove them
